@@ -2,6 +2,7 @@ package checks
 
 import (
 	"bytes"
+	"context"
 	"errors"
 	"fmt"
 	"io"
@@ -111,6 +112,8 @@ func C41(e *simkern.Env) {
 	wireCap := int64(tp.Pick(0, 200, 1200))
 	extCap := int64(tp.Pick(0, 256, 4000))
 	batchLimit := tp.Draw(3)
+	hangups := tp.Bool(1, 3)
+	e.Knob("client_hangups_during_turns", hangups)
 	e.Knob("storage", storage)
 	e.Knob("threshold", threshold)
 	e.Knob("max_response_bytes", wireCap)
@@ -207,6 +210,23 @@ func C41(e *simkern.Env) {
 					}
 				}})
 			base, _ = outstanding()
+			// fault: the caller hangs up (its request context is cancelled) while a
+			// stream turn is running, right after the state has emitted
+			var hangUp context.CancelFunc
+			if hangups {
+				hx.RequestContext = func(r *http.Request) context.Context {
+					ctx, cancel := context.WithCancel(r.Context())
+					hangUp = cancel
+					return ctx
+				}
+				hx.TurnDone = func(int64) {
+					if hangUp != nil && tp.Bool(1, 5) {
+						sim.Fault("client-hangup-during-turn")
+						hangUp()
+					}
+				}
+				defer func() { hx.RequestContext, hx.TurnDone = nil, nil }()
+			}
 			sim.Spawn("http-client", func() {
 				for _, op := range ops {
 					if e.Violated() {
@@ -287,7 +307,7 @@ func init() {
 		Real:  []string{"vgirpc dispatch paths on pipe and HTTP with the checked allocator (alloc_leakcheck.go), external upload/resolve, cast, caps"},
 		Stub:  []string{"transports", "protocol client", "object store / origin with injected upload and fetch failures", "scripted handlers (allocate with their own allocator)"},
 		Quick: 600, Thorough: 60000,
-		FaultKinds: []string{"upload-failure", "fetch-error", "fetch-status", "fetch-truncated", "external-request-pointer", "external-input-pointer", "client-cancel", "malformed-request"},
+		FaultKinds: []string{"upload-failure", "fetch-error", "fetch-status", "fetch-truncated", "external-request-pointer", "external-input-pointer", "client-hangup-during-turn", "client-cancel", "malformed-request"},
 		Assumptions: []string{"the balance is read through the package's own LeakCheckSummary", "on a pipe the balance is judged at the end of the session (while a call is in flight the server may still hold batches); shared-memory resolution is exercised under C36"},
 	}
 }
